@@ -1,6 +1,6 @@
 (** Extraction of the runnable C19 model (ExtrOcamlBasic only; nat and N stay
     extracted datatypes).  Run by make with the current directory coq/. *)
 From Coq Require Import Extraction ExtrOcamlBasic.
-Require Import Celma.Common.Res Celma.Buffers.RWModel.
+Require Import Celma.Common.Res Celma.Buffers.RWModel Celma.Buffers.WFail.
 Extraction Language OCaml.
-Extraction "../ocaml/gen/c19_model.ml" rb_run rb_init wb_run wb_init.
+Extraction "../ocaml/gen/c19_model.ml" rb_run rb_init wb_run wb_init wb_run_f.
